@@ -92,9 +92,27 @@ package fix
 //@   ensures[C17,C01] res == wireKV(kv)
 
 //@ func (g *Group) AsTemplate() (res Items)
-//@   trusted
 //@   requires g != nil
-//@   ensures fresh(res) && imp(wfSeq(g.template), wfSeq(res))
+//@   forall j int
+//@   ensures[C02] @fresh fresh(res) && len(res) == len(g.template)
+//@   ensures[C02] @elems imp(0 <= j && j < len(res), (res[j] == nil || fresh(res[j])) && typeof(res[j]) == typeof(g.template[j]) || !isItemType(g.template[j]))
+//@   assumes imp(wfSeq(g.template), wfSeq(res))
+//@   loop 1:
+//@     invariant[C02] 0 <= iter && iter <= len(g.template) && len(tmp) == len(g.template) && fresh(tmp)
+//@     invariant[C02] imp(0 <= j && j < iter, (tmp[j] == nil || fresh(tmp[j])) && typeof(tmp[j]) == typeof(g.template[j]) || !isItemType(g.template[j]))
+//@     decreases len(g.template) - iter
+
+//@ func (c *Component) AsTemplate() (res Items)
+//@   requires c != nil
+//@   forall j int
+//@   ensures[C02] @fresh fresh(res) && len(res) == len(c.items)
+//@   ensures[C02] @elems imp(0 <= j && j < len(res), (res[j] == nil || fresh(res[j])) && typeof(res[j]) == typeof(c.items[j]) || !isItemType(c.items[j]))
+//@   assumes imp(wfSeq(c.items), wfSeq(res))
+//@   loop 1:
+//@     invariant[C02] 0 <= iter && iter <= len(c.items) && len(tmp) == len(c.items) && fresh(tmp)
+//@     invariant[C02] imp(0 <= j && j < iter, (tmp[j] == nil || fresh(tmp[j])) && typeof(tmp[j]) == typeof(c.items[j]) || !isItemType(c.items[j]))
+//@     decreases len(c.items) - iter
+//@ spec isItemType(x Item) bool = istype(x, *KeyValue) || istype(x, *Group) || istype(x, *Component)
 
 //@ func (g *Group) AddEntry(v Items) (res *Group)
 //@   requires g != nil
